@@ -113,6 +113,9 @@ type cnode struct {
 	ev  *recorder
 	cfg ccfg
 	kr  *ml.Keyring
+	// noSentinel is set when the node turned out unable to receive its own sealed traffic
+	// (a broken configuration or a broken tree): quiesce then falls back to a short sleep.
+	noSentinel bool
 }
 
 func newCnode(c ccfg) (*cnode, error) {
@@ -186,6 +189,10 @@ func (n *cnode) quiesce() {
 	for i := 0; i < 4000 && ml.VerifHandoffLen(n.m) > 0; i++ {
 		time.Sleep(50 * time.Microsecond)
 	}
+	if n.noSentinel {
+		time.Sleep(2 * time.Millisecond)
+		return
+	}
 	marker := []byte(fmt.Sprintf("\x00verif-sentinel-%d", sentinelSeq.Add(1)))
 	n.tr.mu.Lock()
 	keep := n.tr.sent
@@ -206,7 +213,7 @@ func (n *cnode) quiesce() {
 			}
 		}
 		ml.VerifIngestPacket(n.m, buf, fromAddr, time.Now())
-		for i := 0; i < 40000 && !delivered; i++ {
+		for i := 0; i < 6000 && !delivered; i++ {
 			n.del.mu.Lock()
 			for j, g := range n.del.got {
 				if bytes.Equal(g, marker) {
@@ -222,6 +229,7 @@ func (n *cnode) quiesce() {
 		}
 	}
 	if !delivered {
+		n.noSentinel = true
 		time.Sleep(20 * time.Millisecond)
 	}
 }
